@@ -325,6 +325,7 @@ theorem invOn_doOp {c : Cfg} (s : St) (op : Op) (h : InvOn c s) : InvOn c (doOp 
   | hit i => simp only [doOp]; split; exact invOn_hitDev s i (by assumption) h; exact h
   | ev e => exact invOn_evStep s e h
   | advance dt => exact fun y hy => h y hy
+  | setting v => exact fun y hy => h y hy
 
 theorem invOn_step {c : Cfg} (s : St) (op : Op) (h : InvOn c s) : InvOn c (step c s op) := by
   unfold step
